@@ -41,6 +41,9 @@ def generate(rng, tier, n):
         small = rng.random() < 0.25
         t, st = gen_tree(rng, max_nodes=rng.choice([4, 6]) if small else rng.choice([10, 25, 40]),
                          max_depth=2 if small else rng.choice([3, 5]), single_rate=0.3 if small else 0.12)
+        if cid == 2:
+            from ..solvers import needle_tree
+            t, st = needle_tree(rng, rng.choice([65, 70, 130]), pl=rng.choice([1, 2]))     # wider than a machine word
         style_a = rng.choice([None, "pure", "dirichlet", "zeros"])
         na = random_named(rng, t, style_a)
         c = rng.random()
